@@ -12,6 +12,7 @@ import Desverif.Proofs.GateWalk
 import Desverif.Proofs.TopoConnected
 import Desverif.Proofs.TopoFilter
 import Desverif.Proofs.TopoDijkstra
+import Desverif.Proofs.TopoOrder
 namespace C19
 open Topo Gate
 
@@ -78,6 +79,42 @@ theorem from_modules_dst_is_owner (w : World) (mods : List Nat) :
     cases hm : mods[i]? with
     | none => rw [hm] at he; simp at he
     | some m => rw [hm] at he; exact key m e he
+
+/-- **the edge set does not depend on the order of the module list.** Read with module names
+    instead of node indices — (from module, start gate, end gate, to module), as the views are
+    printed — `from_modules` over any two orders of the same modules (creation order, `ModuleTree`
+    order, …) yields the same edges up to order; and the named edges are exactly, module by module
+    and gate by gate, the endpoint gates whose chain ends on one of the modules. -/
+theorem from_modules_edge_set_independent_of_module_order (w : World) (mods mods' : List Nat)
+    (hp : mods.Perm mods') :
+    (fromModules w mods).named = (mods.map (namedOf w mods)).flatten ∧
+    ((fromModules w mods).named).Perm ((fromModules w mods').named) := by
+  refine ⟨fromModules_named w mods, ?_⟩
+  rw [fromModules_named, fromModules_named]
+  have hsame : namedOf w mods = namedOf w mods' := by
+    funext m
+    unfold namedOf
+    apply filterMap_congr''
+    intro g _
+    by_cases hk : kind w.net g = .endpoint
+    · simp only [hk, if_true, hp.mem_iff]
+    · simp only [hk, if_false]
+  rw [hsame]
+  exact (hp.map _).flatten
+
+/-- **every extraction shows the wiring of its moment.** `Topology::current()` / `Globals::topology()`
+    computes `from_modules` afresh from the gate slots: a view extracted when the wiring is `netAt τ`
+    is the view of a simulation that was wired like that from the start — whatever was extracted or
+    connected before (all statements about `from_modules` apply with `net := netAt τ`). -/
+theorem current_at_time_is_from_modules_of_that_wiring (w : World) (netAt : Nat → Net) (τ : Nat)
+    (hcap : ∀ g, (walk (netAt τ) w.ngates g true).length ≤ 16) (i m : Nat) (hi : w.mods[i]? = some m) :
+    (current { w with net := netAt τ }).nodes = w.mods ∧
+    (current { w with net := netAt τ }).edgesAt i = (w.gates m).filterMap fun g =>
+      if kind (netAt τ) g = .endpoint then
+        (indexOf w.mods (w.owner (far { w with net := netAt τ } g))).map fun dst =>
+          ⟨dst, g, far { w with net := netAt τ } g⟩
+      else none :=
+  from_modules_one_edge_per_endpoint { w with net := netAt τ } w.mods hcap i m hi
 
 /-- `spanned` terminates within its fuel (every module enters the work-list at most once) -/
 theorem spanned_terminates (w : World) (root : Nat) (hroot : root ∈ w.mods)
@@ -313,5 +350,11 @@ example : bidirectional (filterEdges (current tri) fun fe => fe.src < fe.e.dst) 
 /-- one direction of the ring 0 → 1 → 2 → 0 is connected although not bidirectional -/
 example : connected (filterEdges (current tri) fun fe => fe.e.dst = (fe.src + 1) % 3) = true ∧
     bidirectional (filterEdges (current tri) fun fe => fe.e.dst = (fe.src + 1) % 3) = false := by decide
+
+/-- `ModuleTree` order: m0, m1, then m2 as a child of m0 gives [m0, m2, m1] -/
+example : ((treeAdd [] 0 none).bind (treeAdd · 1 none)).bind (treeAdd · 2 (some 0)) =
+    some [⟨0, 1, none⟩, ⟨2, 2, some 0⟩, ⟨1, 1, none⟩] := by decide
+example : ((fromModules tri [0, 1, 2]).named).Perm ((fromModules tri [2, 0, 1]).named) :=
+  (from_modules_edge_set_independent_of_module_order tri [0, 1, 2] [2, 0, 1] (by decide)).2
 
 end C19
